@@ -61,5 +61,4 @@ def get_angle_spec_from_float(angle: float, tol: float = 1e-4) -> List[Tuple[int
         while (n_new % 2) == 0:
             n_new, d_new = (int(n_new / 2), d_new - 1)
         nds[i] = (n_new, d_new)
-    nds = [(n, d) for (n, d) in nds if d < 32]
     return nds
